@@ -104,6 +104,8 @@ FQNaN    == 2143289344
 FOne     == 1065353216
 \* total order key on non-NaN floats (-0 and +0 share key 0)
 FKey(b)    == IF b < 0 THEN -FMag(b) ELSE b
+\* key of the IEEE total order (total_cmp): -NaN < -inf < ... < -0 < +0 < ... < +inf < +NaN
+FTotalKey(b) == IF b < 0 THEN -FMag(b) - 1 ELSE b
 FLt(a, b)  == ~FIsNaN(a) /\ ~FIsNaN(b) /\ FKey(a) < FKey(b)
 FGt(a, b)  == FLt(b, a)
 FEq(a, b)  == ~FIsNaN(a) /\ ~FIsNaN(b) /\ FKey(a) = FKey(b)
